@@ -131,6 +131,12 @@ def run(case):
         ("astype(float64)", lambda: ra.astype(np.float64), lambda g: isinstance(g, RA) and g.dtype == np.float64 and np.asarray(g.lengths).tolist() == lens and eqrow(g.ravel(), flat.astype(np.float64)), flat.astype(np.float64)),
         ("astype(own)", lambda: ra.astype(dt), lambda g: isinstance(g, RA) and g.dtype == dt and np.asarray(g.lengths).tolist() == lens and eqrow(g.ravel(), flat), flat),
     ]
+    # conversion to another element type follows numpy's astype on the flat values (value-preserving targets only: no NaN/overflow casts)
+    tgt = np.dtype(gen.DT_ALL[(len(case["vals"]) * 7 + n) % len(gen.DT_ALL)])
+    with np.errstate(all="ignore"):
+        conv = flat.astype(tgt)
+    if np.array_equal(conv.astype(np.float64), flat.astype(np.float64), equal_nan=True) or tgt.kind == "b":
+        checks.append(("astype(%s)" % tgt, lambda: ra.astype(tgt), lambda g: isinstance(g, RA) and g.dtype == tgt and np.asarray(g.lengths).tolist() == lens and eqrow(g.ravel(), conv), conv))
     if len(set(lens)) <= 1 and n > 0:
         exp_m = flat.reshape(n, lens[0])
         checks.append(("to_numpy_array", lambda: ra.to_numpy_array(), lambda g: isinstance(g, np.ndarray) and eqrow(g, exp_m, dtype=dtype_fixed), exp_m))
